@@ -149,6 +149,85 @@ def read_bmp_stream(bs, pos):
         out.append(v)
     return out
 
+# ------------------------------------------------------------------ MRT reader (RFC 6396, RFC 8050)
+
+def read_mrt(bs, pos):
+    """one MRT record at bs[pos:] -> (view, next pos)"""
+    h = Rd(bs, pos)
+    ts = h.num(4, 'timestamp'); ty = h.num(2, 'type'); sub = h.num(2, 'subtype'); ln = h.num(4, 'length')
+    if pos + 12 + ln > len(bs):
+        raise Bad('record length %d exceeds the %d bytes that follow the header' % (ln, len(bs) - pos - 12))
+    r = Rd(bs, pos + 12, pos + 12 + ln)
+    v = dict(ts=ts, ty=ty, sub=sub, len=ln)
+    if ty == 16 and sub in (4, 8, 1, 9):
+        as4 = sub in (4, 8)
+        v['addpath'] = sub in (8, 9)
+        v['peer_as'] = r.num(4 if as4 else 2, 'peer AS'); v['local_as'] = r.num(4 if as4 else 2, 'local AS')
+        v['ifidx'] = r.num(2, 'interface index'); v['afi'] = r.num(2, 'address family')
+        if v['afi'] not in (1, 2):
+            raise Bad('BGP4MP address family %d' % v['afi'])
+        n = 4 if v['afi'] == 1 else 16
+        v['peer_ip'] = r.take(n, 'peer IP'); v['local_ip'] = r.take(n, 'local IP')
+        start = r.pos
+        if r.take(16, 'BGP marker') != MARKER:
+            raise Bad('BGP4MP: BGP marker is not all ones (the local address is missing or of the wrong size?)')
+        bl = r.num(2, 'BGP length')
+        if bl < 19:
+            raise Bad('BGP4MP: BGP length %d < 19' % bl)
+        r.pos = start
+        v['pdus'] = [r.take(bl, 'BGP message')]
+        if r.left():
+            raise Bad('BGP4MP: %d bytes after the single BGP message' % r.left())
+    elif ty == 13 and sub == 1:
+        v['collector'] = r.take(4, 'collector BGP ID')
+        v['view_name'] = r.take(r.num(2, 'view name length'), 'view name')
+        cnt = r.num(2, 'peer count')
+        v['count'] = cnt
+        peers = []
+        for k in range(cnt):
+            pt = r.num(1, 'peer type')
+            pid = r.take(4, 'peer BGP ID')
+            ip = r.take(16 if pt & 1 else 4, 'peer IP')
+            asn = r.num(4 if pt & 2 else 2, 'peer AS')
+            peers.append((pt, pid, ip, asn))
+        v['peers'] = peers
+        if r.left():
+            raise Bad('PEER_INDEX_TABLE: %d bytes after the %d peer entries announced' % (r.left(), cnt))
+    elif ty == 13 and sub in (2, 4):
+        v['seq'] = r.num(4, 'sequence')
+        pl = v['plen'] = r.num(1, 'prefix length')
+        if pl > (32 if sub == 2 else 128):
+            raise Bad('prefix length %d' % pl)
+        v['prefix'] = r.take((pl + 7) // 8, 'prefix')
+        cnt = v['count'] = r.num(2, 'entry count')
+        es = []
+        for k in range(cnt):
+            idx = r.num(2, 'peer index'); orig = r.num(4, 'originated time')
+            al = r.num(2, 'attribute length')
+            es.append((idx, orig, r.take(al, 'attributes')))
+        v['entries'] = es
+        if r.left():
+            raise Bad('RIB record: %d bytes after the %d entries announced' % (r.left(), cnt))
+    else:
+        raise Bad('MRT type %d subtype %d is not one the daemon emits' % (ty, sub))
+    return v, pos + 12 + ln
+
+def read_mrt_stream(bs, pos):
+    out = []
+    while pos < len(bs):
+        v, pos = read_mrt(bs, pos)
+        out.append(v)
+    return out
+
+def read_attrs(bs):
+    """path attributes (RFC 4271 4.3): [(flags, code, value)]"""
+    r, out = Rd(bs), []
+    while r.left() > 0:
+        fl = r.num(1, 'attr flags'); code = r.num(1, 'attr type')
+        ln = r.num(2 if fl & 0x10 else 1, 'attr length')
+        out.append((fl, code, r.take(ln, 'attr value')))
+    return out
+
 # ------------------------------------------------------------------ value domains
 
 V4S = [[10, 0, 0, 1], [192, 0, 2, 1], [0, 0, 0, 0], [255, 255, 255, 255], [172, 16, 254, 3]]
@@ -295,6 +374,66 @@ def bmp_to_coq(m, blobs):
         return '(Initiation %s)' % clist(['(%s, %s)' % (cN(a), cbytes(expand(b))) for a, b in m[1]])
     return {5: 'Termination', 6: 'RouteMirroring'}[t]
 
+
+def gen_mph(rng, mixed=False):
+    v6 = rng.random() < 0.45
+    ra = gen_ip(rng, v6)
+    la = gen_ip(rng, (not v6) if mixed else v6)
+    return [pick(rng, ASNS), pick(rng, ASNS), pick(rng, U16S), ra, la, 1]
+
+def gen_mp(rng, big=False):
+    u, ap = gen_update(rng, big)
+    return [gen_mph(rng), u, 1 if ap else 0]
+
+def gen_rib_entry(rng, v6, npeers):
+    nh = []
+    x = rng.random()
+    if x < 0.85:
+        nh = gen_nexthop(rng, v6)
+    return [pick(rng, [0, 1, max(0, npeers - 1), 65535]) if rng.random() < 0.2 else rng.randrange(max(1, npeers)),
+            pick(rng, U32S), nh, pick(rng, ATTRSETS)]
+
+def gen_td(rng):
+    """a dump: peer index table, then RIB records"""
+    npeers = pick(rng, [0, 1, 1, 2, 3, 5])
+    peers = [[pick(rng, V4S), gen_ip(rng), pick(rng, ASNS)] for _ in range(npeers)]
+    recs = [[pick(rng, U32S), [0, pick(rng, V4S), peers]]]
+    for k in range(rng.randrange(0, 4)):
+        v6 = rng.random() < 0.5
+        es = [gen_rib_entry(rng, v6, npeers) for _ in range(pick(rng, [0, 1, 1, 2, 3]))]
+        recs.append([pick(rng, U32S), [2 if v6 else 1, pick(rng, U32S), gen_nlri(rng, v6), es]])
+    return recs
+
+def cmph(h):
+    return ('{| m_rasn := %s; m_lasn := %s; m_ifidx := %s; m_raddr := %s; m_laddr := %s; m_asn4 := %s |}'
+            % (cN(h[0]), cN(h[1]), cN(h[2]), cip(h[3]), cip(h[4]), cbool(h[5])))
+
+def mp_to_coq(m, blobs):
+    return '{| mp_hdr := %s; mp_blob := %s; mp_addpath := %s |}' % (cmph(m[0]), cbytes(blobs[0]), cbool(m[2]))
+
+def copt_bytes(nh):
+    return 'None' if not nh else '(Some %s)' % cbytes(nh[0])
+
+def centry(e, attrs):
+    return '{| re_idx := %s; re_orig := %s; re_nh := %s; re_attrs := %s |}' % (
+        cN(e[0]), cN(e[1]), copt_bytes(e[2]), clist([cbytes(a) for a in attrs]))
+
+def crep(items, render):
+    """a list, or the compact [-1, n, x] form as (repeat x n)"""
+    if isinstance(items, list) and len(items) == 3 and items[0] == -1:
+        return '(repeat %s (N.to_nat %s))' % (render(items[2], 0), cN(items[1]))
+    return clist([render(x, k) for k, x in enumerate(items)])
+
+def td_to_coq(tr, side):
+    ts, rec = tr
+    if rec[0] == 0:
+        r = '(PeerIndexTable %s %s)' % (cbytes(rec[1]), crep(rec[2], lambda p, k: '{| pe_id := %s; pe_addr := %s; pe_asn := %s |}' % (cbytes(p[0]), cip(p[1]), cN(p[2]))))
+    else:
+        prefix, attrs = side
+        r = '(%s %s %s %s)' % ('RibIpv4Unicast' if rec[0] == 1 else 'RibIpv6Unicast', cN(rec[1]), cbytes(prefix),
+                               crep(rec[3], lambda e, k: centry(e, attrs[k])))
+    return '(%s, %s)' % (cN(ts), r)
+
 # ------------------------------------------------------------------ oracle helpers
 
 def norm_nlri(n):
@@ -434,57 +573,94 @@ class Prop:
 
     def gen_cases(self, rng, tier):
         cases = []
-        n = 500 if tier == 'quick' else 5000
-        for k in range(n):
+        q = tier == 'quick'
+        for k in range(400 if q else 4000):
             pre = [] if rng.random() < 0.7 else [rng.randrange(256) for _ in range(rng.randrange(1, 9))]
             ms = [gen_bmp_msg(rng) for _ in range(rng.randrange(1, 6))]
             cases.append({'kind': 'bmp', 'pre': pre, 'msgs': ms})
-        for k in range(8 if tier == 'quick' else 60):
+        for k in range(8 if q else 60):
             cases.append({'kind': 'bmp', 'pre': [], 'msgs': [gen_bmp_msg(rng, big=True)] + ([gen_bmp_msg(rng)] if k % 2 else [])})
         # correspondence only (outside the property's quantifier): caller flags with the V bit,
         # message kinds the daemon never emits, TLV values of 65535..65537 bytes
-        for k in range(20 if tier == 'quick' else 100):
+        for k in range(20 if q else 100):
             u, ap = gen_update(rng)
             ms = [pick(rng, [[1], [5], [6], [0, gen_pph(rng, daemon=False), u, 1 if ap else 0]])]
             cases.append({'kind': 'bmp', 'pre': [], 'msgs': ms, 'api_only': 1})
         for ln in (65535, 65536, 65537):
             cases.append({'kind': 'bmp', 'pre': [], 'msgs': [[4, [[1, [-1, ln, 65]], [2, [7]]]]], 'api_only': 1})
+        # ---- MRT BGP4MP
+        for k in range(250 if q else 2500):
+            pre = [] if rng.random() < 0.7 else [rng.randrange(256) for _ in range(rng.randrange(1, 9))]
+            cases.append({'kind': 'mrt', 'pre': pre, 'msgs': [gen_mp(rng) for _ in range(rng.randrange(1, 5))]})
+        for k in range(6 if q else 40):
+            cases.append({'kind': 'mrt', 'pre': [], 'msgs': [gen_mp(rng, big=True)]})
+        # correspondence only: 2-octet AS form (never used by the daemon), local address of the other family
+        for k in range(20 if q else 100):
+            m = gen_mp(rng)
+            if k % 2:
+                m[0][5] = 0
+            else:
+                m[0] = gen_mph(rng, mixed=True)
+            cases.append({'kind': 'mrt', 'pre': [], 'msgs': [m], 'api_only': 1})
+        # ---- TABLE_DUMP_V2
+        for k in range(250 if q else 2500):
+            pre = [] if rng.random() < 0.8 else [rng.randrange(256) for _ in range(rng.randrange(1, 9))]
+            cases.append({'kind': 'td', 'pre': pre, 'recs': gen_td(rng)})
+        # the u16 count boundaries (correspondence only beyond 65535)
+        for n in (65535, 65536, 65537):
+            peer = [[10, 0, 0, 1], [10, 0, 0, 1], 65001]
+            ent = [0, 5, [], []]
+            cases.append({'kind': 'td', 'pre': [], 'recs': [[7, [0, [1, 1, 1, 1], [-1, n, peer]]]], 'api_only': int(n > 65535), 'digest': 1})
+            cases.append({'kind': 'td', 'pre': [], 'recs': [[7, [1, 9, [0, 24, [10, 1, 2, 0]], [-1, n, ent]]]], 'api_only': int(n > 65535), 'digest': 1})
+        # an attribute block of 65535 / 65536+ bytes in one entry
+        for ln, api in ((65535 - 7 - 4 - 7, 0), (65536 - 7 - 4 - 7, 1)):
+            big = [[0, 1, 0], [1, 8, [-1, ln, 1]]]
+            cases.append({'kind': 'td', 'pre': [], 'recs': [[7, [1, 1, [0, 8, [10, 0, 0, 0]], [[0, 1, [[10, 0, 0, 1]], big]]]]], 'api_only': api})
         return cases
 
     # ---- running
     def _harness(self, mode, vals):
         return rustrun.crate_bin('C19', 'hx-mon', mode, vals)
 
+    def _views(self, c, o):
+        if c['kind'] == 'bmp':
+            return read_bmp_stream(o[0], len(c['pre']))
+        return read_mrt_stream(o[0], len(c['pre']))
+
     def run_impl(self, cases, tier):
         obs = [None] * len(cases)
-        idx = [k for k, c in enumerate(cases) if c['kind'] == 'bmp']
-        res, err = self._harness('bmp', [[cases[k]['pre'], cases[k]['msgs']] for k in idx])
-        if res is None:
-            return None, err
-        for k, r in zip(idx, res):
-            obs[k] = r
-        # second pass: the repository's BGP parser on the PDUs the python reader finds
+        for kind, mk in (('bmp', lambda c: [c['pre'], c['msgs']]), ('mrt', lambda c: [c['pre'], c['msgs']]),
+                         ('td', lambda c: [c['pre'], c['recs']])):
+            idx = [k for k, c in enumerate(cases) if c['kind'] == kind]
+            if not idx:
+                continue
+            res, err = self._harness(kind, [mk(cases[k]) for k in idx])
+            if res is None:
+                return None, err
+            for k, r in zip(idx, res):
+                if kind == 'mrt' and r != [-1]:
+                    r = [r[0], r[2], r[1]]          # [buffer, blobs, timestamps ok]
+                obs[k] = r
+        # second pass: the repository's BGP parser on the PDUs the python readers find
         jobs, where = [], []
         for k, c in enumerate(cases):
             o = obs[k]
-            if o == [-1]:
+            if o == [-1] or c['kind'] == 'td':
                 continue
             try:
-                views = read_bmp_stream(o[0], len(c['pre']))
+                views = self._views(c, o)
             except Bad:
-                o.append([])
+                o.insert(2, [])
                 continue
-            per = []
+            per, flat = [], self._addpath_plan(c, o)
             for v in views:
                 pl = []
                 for pdu in v.get('pdus', []):
                     where.append(pl); pl.append(None)
-                    jobs.append([[IPV4, IPV6], 0, pdu])
+                    ap = flat.pop(0) if flat else 0
+                    jobs.append([[IPV4, IPV6], ap, pdu])
                 per.append(pl)
-            o.append(per)
-        # the add-path setting of a Route Monitoring PDU is the one of the monitored message:
-        # attribute PDUs to messages in order (frames per message from the reference blobs)
-        self._assign_addpath(cases, obs, jobs)
+            o.insert(2, per)
         if jobs:
             pres, err = self._harness('parse', jobs)
             if pres is None:
@@ -495,30 +671,23 @@ class Prop:
             self._side[json.dumps(cases[k], sort_keys=True)] = obs[k]
         return obs, ''
 
-    def _assign_addpath(self, cases, obs, jobs):
-        j = 0
-        for k, c in enumerate(cases):
-            o = obs[k]
-            if o == [-1] or len(o) < 3 or not o[2]:
-                continue
-            # walk the views in order together with the case messages
-            flat = []
-            for m, blobs in zip(c['msgs'], o[1]):
-                if m[0] == 0:
-                    try:
-                        nfr = max(1, len(split_frames(blobs[0])))
-                    except Bad:
-                        nfr = 1
-                    flat += [m[3]] * nfr
-                elif m[0] == 3:
-                    flat += [0, 0]
-                elif m[0] == 2 and m[2][0] in (1, 3):
-                    flat += [0]
-            npdu = sum(len(pl) for pl in o[2])
-            for i in range(npdu):
-                if i < len(flat):
-                    jobs[j + i][1] = flat[i]
-            j += npdu
+    def _addpath_plan(self, c, o):
+        """the add-path setting under which each embedded PDU, in stream order, is to be parsed:
+        the one stated for the monitored message it belongs to (frames per message from the
+        reference blobs)"""
+        flat = []
+        for m, blobs in zip(c['msgs'], o[1]):
+            if c['kind'] == 'mrt' or m[0] == 0:
+                try:
+                    nfr = max(1, len(split_frames(blobs[0])))
+                except Bad:
+                    nfr = 1
+                flat += [m[2] if c['kind'] == 'mrt' else m[3]] * nfr
+            elif m[0] == 3:
+                flat += [0, 0]
+            elif m[0] == 2 and m[2][0] in (1, 3):
+                flat += [0]
+        return flat
 
     def run_model(self, cases, tier):
         terms = []
@@ -528,13 +697,26 @@ class Prop:
                 # no reference encodings available (the implementation panicked): the model cannot be evaluated
                 terms.append('run_case [] []')
                 continue
-            ms = clist([bmp_to_coq(m, b) for m, b in zip(c['msgs'], o[1])])
-            terms.append('run_case %s %s' % (cbytes(c['pre']), ms))
-        pre = 'From RB Require Import Base.Val Base.Bytes Model.Bmp.\nOpen Scope N_scope.'
+            if c['kind'] == 'bmp':
+                terms.append('run_case %s %s' % (cbytes(c['pre']), clist([bmp_to_coq(m, b) for m, b in zip(c['msgs'], o[1])])))
+            elif c['kind'] == 'mrt':
+                terms.append('run_mrt %s %s' % (cbytes(c['pre']), clist([mp_to_coq(m, b) for m, b in zip(c['msgs'], o[1])])))
+            else:
+                terms.append('%s %s %s' % ('run_td_digest' if c.get('digest') else 'run_td', cbytes(c['pre']), clist([td_to_coq(tr, sd) for tr, sd in zip(c['recs'], o[1])])))
+        pre = 'From RB Require Import Base.Val Base.Bytes Model.Bmp Model.Mrt.\nOpen Scope N_scope.'
         return coqrun.eval_terms('C19', pre, terms)
 
     def canon(self, case, obs):
         if obs and isinstance(obs[0], list):
+            if case.get('digest') and len(obs) == 2:
+                # implementation side of a digest case (the model prints [len, checksum, [first bytes]])
+                s1 = s2 = 0
+                for b in obs[0]:
+                    s1 += b
+                    s2 += s1
+                return [len(obs[0]), [s1, s2], obs[0][:40]]
+            if case.get('digest'):
+                return obs
             return obs[0]
         return obs
 
@@ -544,9 +726,106 @@ class Prop:
             return 'panic in the encoder'
         if c.get('api_only'):
             return None
-        buf, blobs, parsed = obs[0], obs[1], obs[2]
-        if buf[:len(c['pre'])] != c['pre']:
+        if obs[0][:len(c['pre'])] != c['pre']:
             return 'the encoder changed bytes that were already in the buffer'
+        return {'bmp': self._oracle_bmp, 'mrt': self._oracle_mrt, 'td': self._oracle_td}[c['kind']](c, obs)
+
+    def _oracle_mrt(self, c, obs):
+        buf, blobs, parsed, ts_ok = obs[0], obs[1], obs[2], obs[3]
+        if not ts_ok:
+            return 'MRT timestamp outside the wall-clock window of the call'
+        for bl in blobs:
+            try:
+                split_frames(bl[0])
+            except Bad as e:
+                return 'encode_to output is not a sequence of BGP frames (%s)' % e
+        try:
+            views = read_mrt_stream(buf, len(c['pre']))
+        except Bad as e:
+            return 'the bytes are not a sequence of well-formed MRT records: %s' % e
+        vi = 0
+        for mi, (m, bl) in enumerate(zip(c['msgs'], blobs)):
+            what = 'message %d' % mi
+            h, spec, ap = m
+            nfr = len(split_frames(bl[0]))
+            mine, mparsed = views[vi:vi + nfr], parsed[vi:vi + nfr]
+            vi += nfr
+            if len(mine) != nfr:
+                return '%s: expected %d BGP4MP records (one per BGP frame)' % (what, nfr)
+            for v in mine:
+                if v['ty'] != 16 or v['sub'] != (8 if ap else 4):
+                    return '%s: type/subtype %d/%d does not state add-path=%d (AS4 form)' % (what, v['ty'], v['sub'], ap)
+                v6 = len(h[3]) == 16
+                if v['afi'] != (2 if v6 else 1):
+                    return '%s: address family %d for a %s peer' % (what, v['afi'], 'IPv6' if v6 else 'IPv4')
+                if (v['peer_as'], v['local_as'], v['ifidx'], v['peer_ip'], v['local_ip']) != (h[0], h[1], h[2], h[3], h[4]):
+                    return '%s: BGP4MP header fields differ from the monitored ones' % what
+            why = check_update(spec, ap, [p[0] for p in mparsed])
+            if why:
+                return '%s: %s' % (what, why)
+        if vi != len(views):
+            return '%d MRT records in the stream beyond those monitored' % (len(views) - vi)
+        return None
+
+    def _oracle_td(self, c, obs):
+        buf, side = obs[0], obs[1]
+        try:
+            views = read_mrt_stream(buf, len(c['pre']))
+        except Bad as e:
+            return 'the bytes are not a sequence of well-formed MRT records: %s' % e
+        if len(views) != len(c['recs']):
+            return '%d records read, %d written' % (len(views), len(c['recs']))
+        for ri, ((ts, rec), v, sd) in enumerate(zip(c['recs'], views, side)):
+            what = 'record %d' % ri
+            if v['ts'] != ts or v['ty'] != 13:
+                return '%s: timestamp/type differ' % what
+            if rec[0] == 0:
+                peers = expand(rec[2])
+                if v['sub'] != 1 or v['collector'] != rec[1] or v['view_name'] != []:
+                    return '%s: PEER_INDEX_TABLE header differs' % what
+                if v['count'] != len(peers) or len(v['peers']) != len(peers):
+                    return '%s: peer count %d, %d peers written' % (what, v['count'], len(peers))
+                for (pt, pid, ip, asn), p in zip(v['peers'], peers):
+                    if bool(pt & 1) != (len(p[1]) == 16):
+                        return '%s: peer type %d for a %d-octet address' % (what, pt, len(p[1]))
+                    if not pt & 2 or pt & ~3:
+                        return '%s: peer type %d (AS4 bit expected, no other bits)' % (what, pt)
+                    if (pid, ip, asn) != (p[0], p[1], p[2]):
+                        return '%s: peer entry differs from the one written' % what
+            else:
+                es = expand(rec[3])
+                if v['sub'] != (2 if rec[0] == 1 else 4) or v['seq'] != rec[1]:
+                    return '%s: RIB subtype/sequence differ' % what
+                mask, addr = rec[2][1], rec[2][2]
+                if v['plen'] != mask or v['prefix'] != addr[:(mask + 7) // 8]:
+                    return '%s: prefix differs from the one dumped' % what
+                if v['count'] != len(es) or len(v['entries']) != len(es):
+                    return '%s: entry count %d, %d entries written' % (what, v['count'], len(es))
+                for k, ((idx, orig, ab), e) in enumerate(zip(v['entries'], es)):
+                    if (idx, orig) != (e[0], e[1]):
+                        return '%s entry %d: peer index / originated time differ' % (what, k)
+                    try:
+                        got = read_attrs(ab)
+                    except Bad as ex:
+                        return '%s entry %d: attribute block of %d bytes does not parse (%s)' % (what, k, len(ab), ex)
+                    want = [tuple(attr_wire(a)) for a in expand(e[3])]
+                    gotw = [tuple([fl, code] + (be(2, len(vb)) if fl & 0x10 else [len(vb)]) + vb) for fl, code, vb in got]
+                    nh = e[2]
+                    if nh:
+                        last = got[-1] if got else None
+                        if rec[0] == 1:
+                            ok = last is not None and last[1] == 3 and last[2] == nh[0]
+                        else:
+                            ok = last is not None and last[1] == 14 and last[2] == [len(nh[0])] + nh[0]
+                        if not ok:
+                            return '%s entry %d: next hop not carried by the last attribute' % (what, k)
+                        gotw = gotw[:-1]
+                    if gotw != want:
+                        return '%s entry %d: attributes differ from the ones dumped' % (what, k)
+        return None
+
+    def _oracle_bmp(self, c, obs):
+        buf, blobs, parsed = obs[0], obs[1], obs[2]
         # contract of the opaque parameter (C04): every reference blob is a sequence of frames
         for bl in blobs:
             for b in bl:
@@ -616,8 +895,20 @@ class Prop:
         if obs == [-1]:
             return ('panic',)
         key = []
+        if c['kind'] == 'td':
+            for ts, rec in c['recs']:
+                if rec[0] == 0:
+                    key.append((0, tuple(len(p[1]) for p in expand(rec[2])[:8]), len(expand(rec[2]))))
+                else:
+                    es = expand(rec[3])
+                    key.append((rec[0], rec[2][1], len(es), tuple((len(e[2][0]) if e[2] else 0, len(expand(e[3]))) for e in es[:8])))
+            return ('td', len(c['pre']) > 0, tuple(key)) if any(k[0] != 0 or k[2] for k in key) else None
         for m, bl in zip(c['msgs'], obs[1]):
-            if m[0] == 0:
+            if c['kind'] == 'mrt':
+                try: nfr = len(split_frames(bl[0]))
+                except Bad: nfr = -1
+                key.append((len(m[0][3]), len(m[0][4]), m[0][5], m[1][1], m[1][2], m[2], nfr, min(len(bl[0]) // 64, 80)))
+            elif m[0] == 0:
                 try: nfr = len(split_frames(bl[0]))
                 except Bad: nfr = -1
                 key.append((0, len(m[1][5]), m[2][1], m[2][2], m[3], nfr, min(len(bl[0]) // 64, 80)))
@@ -635,19 +926,30 @@ class Prop:
             tags.append('correspondence_only')
         if obs == [-1]:
             return tags + ['panic']
-        names = {0: 'route_monitoring', 1: 'stats', 2: 'peer_down', 3: 'peer_up', 4: 'initiation', 5: 'termination', 6: 'mirroring'}
-        for m, bl in zip(c['msgs'], obs[1]):
-            tags.append(names[m[0]])
-            if m[0] in (0, 2, 3):
-                tags.append('peer_v6' if len(m[1][5]) == 16 else 'peer_v4')
-            if m[0] == 0:
-                u = m[2]
-                tags.append(['reach', 'unreach', 'eor'][u[1]] + ('_v6' if u[2] == IPV6 else '_v4'))
-                if m[3]: tags.append('addpath')
-                try:
-                    if len(split_frames(bl[0])) > 1: tags.append('update_split_into_frames')
-                except Bad:
-                    pass
         if c['pre']:
             tags.append('prefilled_buffer')
+        if c['kind'] == 'td':
+            for ts, rec in c['recs']:
+                tags.append(['td_peer_index', 'td_rib_v4', 'td_rib_v6'][rec[0]])
+                n = len(expand(rec[2] if rec[0] == 0 else rec[3]))
+                tags.append('td_count_%s' % ('0' if n == 0 else '1-5' if n <= 5 else 'u16_boundary'))
+            return sorted(set(tags))
+        names = {0: 'route_monitoring', 1: 'stats', 2: 'peer_down', 3: 'peer_up', 4: 'initiation', 5: 'termination', 6: 'mirroring'}
+        for m, bl in zip(c['msgs'], obs[1]):
+            if c['kind'] == 'mrt':
+                u, ap = m[1], m[2]
+                tags.append('mrt_peer_v6' if len(m[0][3]) == 16 else 'mrt_peer_v4')
+            else:
+                tags.append(names[m[0]])
+                if m[0] in (0, 2, 3):
+                    tags.append('peer_v6' if len(m[1][5]) == 16 else 'peer_v4')
+                if m[0] != 0:
+                    continue
+                u, ap = m[2], m[3]
+            tags.append(['reach', 'unreach', 'eor'][u[1]] + ('_v6' if u[2] == IPV6 else '_v4'))
+            if ap: tags.append('addpath')
+            try:
+                if len(split_frames(bl[0])) > 1: tags.append('update_split_into_frames')
+            except Bad:
+                pass
         return sorted(set(tags))
